@@ -122,7 +122,7 @@ Ltac kill_ifs :=
   | |- context [Rle_dec ?a ?b] => destruct (Rle_dec a b); try (exfalso; lra); try (exfalso; nra)
   end.
 
-Ltac cont_solve := apply continuous_of_ex_derive; auto_derive; nz.
+Ltac cont_solve := apply continuous_of_ex_derive; unfold Rpower; auto_derive; nz.
 
 Ltac loc_solve :=
   first [ apply locally_lt_id_const; solve [nz]
@@ -192,3 +192,20 @@ Ltac eos_solve :=
         | solve [ abstract_nz; field; nz ]
         | lra
         | split_nz; field; nz ].
+
+From EP Require Import lib.RH.
+
+(* one-sided limits of a region-wise field at the region boundary *)
+Ltac branch_eq :=
+  let y := fresh "y" in let Hy := fresh "Hy" in
+  intros y Hy; cbv beta; autounfold with epgen; kill_ifs; reflexivity.
+
+Ltac lim_solve :=
+  match goal with
+  | |- left_lim _ _ _ => eapply left_lim_of_branch; [ branch_eq | cont_solve | reflexivity ]
+  | |- right_lim _ _ _ => eapply right_lim_of_branch; [ branch_eq | cont_solve | reflexivity ]
+  end.
+
+Ltac jump_solve :=
+  unfold fields_jump; cbn [jl_rho jl_u jl_p jl_e jr_rho jr_u jr_p jr_e];
+  repeat match goal with |- _ /\ _ => split end; lim_solve.
